@@ -331,9 +331,8 @@ func (a *analyzer) stmt(st ast.Stmt, in set) outcome {
 		return a.ret(s, in)
 	case *ast.IfStmt:
 		o := a.stmt(s.Init, in)
-		pre := cat(o.fall, a.expr(s.Cond))
+		thenIn, elseIn := a.condPaths(s.Cond, o.fall)
 		o.fall = set{}
-		thenIn, elseIn := a.branch(s.Cond, pre)
 		o = merge(o, a.block(s.Body.List, thenIn))
 		if s.Else != nil {
 			o = merge(o, a.stmt(s.Else, elseIn))
@@ -528,6 +527,32 @@ func (a *analyzer) isErrCtor(call *ast.CallExpr) bool {
 }
 
 // branch splits the incoming paths of an `if` by a condition of the form `e != nil` / `e == nil`.
+// condPaths evaluates a branch condition with short-circuit semantics: the paths on which it is true and those on
+// which it is false. In `A || B` the right operand is evaluated exactly on the paths where A is false, in `A && B`
+// exactly where A is true: `if x == nil || !x.Validate() { return err }` cannot fall through without the call.
+func (a *analyzer) condPaths(cond ast.Expr, in set) (set, set) {
+	c := ast.Unparen(cond)
+	switch x := c.(type) {
+	case *ast.BinaryExpr:
+		switch x.Op {
+		case token.LOR:
+			tA, fA := a.condPaths(x.X, in)
+			tB, fB := a.condPaths(x.Y, fA)
+			return union(tA, tB), fB
+		case token.LAND:
+			tA, fA := a.condPaths(x.X, in)
+			tB, fB := a.condPaths(x.Y, tA)
+			return tB, union(fA, fB)
+		}
+	case *ast.UnaryExpr:
+		if x.Op == token.NOT {
+			t, f := a.condPaths(x.X, in)
+			return f, t
+		}
+	}
+	return a.branch(c, cat(in, a.expr(c)))
+}
+
 func (a *analyzer) branch(cond ast.Expr, in set) (set, set) {
 	be, ok := ast.Unparen(cond).(*ast.BinaryExpr)
 	if !ok || (be.Op != token.NEQ && be.Op != token.EQL) {
